@@ -31,7 +31,7 @@ WordAt(w) == IF w = 0 THEN 16 ELSE Len(PermBase) - 4          \* 0-based offset 
 PermWord(b, at, p) == [k \in 1..Len(b) |-> IF k > at /\ k <= at + 4 THEN b[at + p[k - at]] ELSE b[k]]
 
 TableCells ==
-     {[k |-> "len", a |-> blen, b |-> d] : blen \in {0, 3, 4, 5, 8, 12}, d \in 0..14}
+     {[k |-> "len", a |-> blen, b |-> d] : blen \in {0, 2, 3, 4, 5, 6, 7, 8, 10, 12}, d \in 0..14}
   \cup {[k |-> "nzpad", a |-> 4, b |-> d] : d \in 1..3}
   \cup {[k |-> "chip", a |-> c, b |-> 0] : c \in {0, 1, 2, 3, 4, 128, 255}}
   \cup {[k |-> "flags", a |-> f, b |-> 0] : f \in {0, 1, 2, 3, 128, 255}}
